@@ -2,10 +2,12 @@ SPECIFICATION Spec
 CONSTANTS
  W = 12
  Bases = {2, 8, 10, 16, 7}
+ Signs = {TRUE, FALSE}
  MaxLen = 14
 INVARIANT AlgoCorrect
 INVARIANT AlgoSafe
 INVARIANT AlgoBounded
 INVARIANT ImpliesBuffer
 INVARIANT CanonShape
+INVARIANT FastIsSlow
 CHECK_DEADLOCK FALSE
